@@ -59,7 +59,7 @@ UNIT_VALS = {'%': [0, 1, 2, 3, 7, -3, 100, 255, 12345, -32767, 32767],
              '&': [0, 1, 2, 3, -3, 70000, -70000, 65536, 2147483647, -2147483647],
              '!': [0.0, 0.5, 1.5, 2.5, -2.5, 3.0, 0.1, 100.25, 16777216.0, 1e10, -1e-3, 0.7, 3.3, 0.001, 123.456, 0.2],
              '#': [0.0, 0.5, 1.5, 2.5, -2.5, 3.0, 0.1, 100.25, 1e15, 123456789.125, -1e-9],
-             '$': ['', 'a', 'Hello', 'abc def', '12', ' x ', 'ABCDEFGHIJKLMNO']}
+             '$': ['', 'a', 'Hello', 'abc def', '12', ' x ', 'ABCDEFGHIJKLMNO', '\u00e9', '\u00e2', '\u00c7a', '\u00ff', 'a\u00e9', '\u00c9t\u00e9', '\u2554\u2550']}
 UNIT_BIN = ['+', '-', '*', '/', '\\', 'MOD', '=', '<>', '<', '>', '<=', '>=', 'AND', 'OR', 'XOR', 'EQV', 'IMP']
 UNIT_FUNCS = [('ABS', 'n'), ('CINT', 'n'), ('CLNG', 'n'), ('INT', 'n'), ('STR$', 'i'), ('NOT', 'n'), ('NEG', 'n'), ('LEN', 's'),
               ('ASC', 's'), ('UCASE$', 's'), ('LCASE$', 's'), ('LTRIM$', 's'), ('RTRIM$', 's'), ('VAL', 's'), ('CHR$', 'c'),
